@@ -40,11 +40,14 @@ fn bits_of(bytes: &[u8], bit_len: usize) -> Vec<u8> {
 }
 
 pub const SMALL: i64 = 1 << 29;
+pub const SZ_MAX: i64 = (1 << 30) - 1;
 
 pub fn size_json(min: Option<u64>, max: Option<u64>, ext: bool) -> Option<Value> {
     match (min, max) {
         (None, None) => Some(json!({"c": "none", "lb": 0, "ub": 0, "ext": false})),
         (lb, Some(ub)) if ub < SMALL as u64 => Some(json!({"c": "sz", "lb": lb.unwrap_or(0), "ub": ub, "ext": ext})),
+        // SIZE(lb..MAX): X691!SzMAX stands for every upper bound beyond the lengths that are explored (11.9.4.2)
+        (Some(lb), _) if lb < SMALL as u64 => Some(json!({"c": "sz", "lb": lb, "ub": SZ_MAX, "ext": ext})),
         _ => None,
     }
 }
